@@ -68,4 +68,36 @@ for i, name in enumerate(names):
         "forced": ("Kolmogorov" in name) or (name == "GeneralVorticityConvectionStepper" and spec.kwargs.get("injection_scale", 0) != 0)
         or name in ("FisherKPP", "GrayScott", "GeneralPolynomialStepper", "NormalizedPolynomialStepper", "DifficultyPolynomialStepper", "SwiftHohenberg") and False,
     }
+# the Wave stepper (its own diagonalisation around the order-0 step; not a registry class)
+import exponax as ex  # noqa: E402
+
+rngw = np.random.default_rng(seed + 1000)
+Dw = seed % 3 + 1
+Nw = {1: 16, 2: 8, 3: 6}[Dw]
+stw = ex.stepper.Wave(Dw, float(rngw.uniform(1, 6)), Nw, 0.1, speed_of_sound=float(rngw.uniform(0.3, 2)))
+uw = S.random_state(rngw, 2, Dw, Nw, "smooth")
+yw = stw(jnp.asarray(uw, dtype=want_f))
+zw = stw(jnp.zeros_like(jnp.asarray(uw, dtype=want_f)))
+out["steppers"]["Wave"] = {
+    "D": Dw, "N": Nw, "order": 0, "out_dtype": str(yw.dtype),
+    "leaf_dtypes": sorted({str(l.dtype) for l in jax.tree_util.tree_leaves(stw) if hasattr(l, "dtype") and np.issubdtype(l.dtype, np.inexact)}),
+    "finite": bool(np.all(np.isfinite(np.asarray(yw)))), "zero_finite": bool(np.all(np.isfinite(np.asarray(zw)))),
+    "zero_max": float(np.max(np.abs(np.asarray(zw)))), "y": np.asarray(yw, dtype=float).ravel().tolist(), "forced": False,
+}
+# double-precision fidelity: in the x64 session the linear classes (closed-form solution known) are accurate to DOUBLE
+# rounding, not merely to single — a result that went through a single-precision constant or cast somewhere is a silent
+# fall-back to another precision although its dtype says float64
+out["exact"] = {}
+if x64:
+    from props import c01  # noqa: E402
+    for i, name in enumerate(list(dict.fromkeys([n for n in names if n in S.LINEAR] + ["Advection", "Diffusion"]))):
+        D = (i + seed) % 3 + 1
+        N = {1: 16, 2: 8, 3: 6}[D]
+        r = c01.probe_exact(name, D, N, 0.1, seed + i)
+        if "err" in r:
+            out["exact"][name] = {"D": D, "N": N, "err": r["err"], "scale": r["scale"], "rounding_allowance": r["rounding_allowance"], "args": {"name": name, "D": D, "N": N, "dt": 0.1, "seed": seed + i}}
+    for D in (1, 2, 3):
+        N = {1: 16, 2: 8, 3: 6}[D]
+        r = c01.probe_wave(D, N, 0.1, seed + D)
+        out["exact"][f"Wave[{D}d]"] = {"D": D, "N": N, "err": r["err"], "scale": r["scale"], "rounding_allowance": r["rounding_allowance"], "args": {"D": D, "N": N, "dt": 0.1, "seed": seed + D}}
 print("C19JSON" + json.dumps(out))
